@@ -401,7 +401,10 @@ class Session:
         mark = len(self.log)
         try:
             canv = self.top.render((w, h), focus)
-            self.held = canv  # like the display module, keep the last frame alive so CanvasCache (weak refs) really serves hits
+            # like the display module, keep exactly the last frame alive so CanvasCache (weak refs) really serves hits
+            self.held = canv
+            prev_canv, prev_tp = self.last_canv, self.last_tp
+            self.last_canv, self.last_tp = canv, None
             shown = canvas_rows(canv)
         except Exception as e:  # noqa: BLE001
             self.nexc += 1
@@ -544,7 +547,7 @@ class Session:
             # the very same canvas object as the previous frame although total rows / offset changed: the ScrollBar
             # canvas was served from CanvasCache across a change that happened off screen (classification only)
             stale = canv is self.stale_canv
-            if canv is self.last_canv and (total, p) != self.last_tp:
+            if canv is prev_canv and prev_tp is not None and (total, p) != prev_tp:
                 stale, self.stale_canv = True, canv  # stays stale for as long as this very canvas keeps being served
                 self.c("bar_frame_from_cache_although_total_or_offset_changed")
             if len(P) == 1:
@@ -564,7 +567,7 @@ class Session:
                     elif top2 != top:
                         self.c("same_p_different_top")
                 tab[p] = (top, stale)
-        self.last_canv, self.last_tp = canv, (total, p)
+        self.last_tp = (total, p)
         return {"P": P, "total": total, "cursor": m["cursor"], "fp": (hash(tuple(m["full"])), w, h, bw), "drawn": drawn}
 
 
